@@ -48,8 +48,9 @@ def workdir(pid):
 def run_gen():
     """Regenerate coq/theories/Gen/*.v from /repo's current sources.  Returns (ok, log)."""
     genbin = os.path.join(VERIF, 'bin', 'gen')
-    srcs = glob.glob(os.path.join(VERIF, 'gen', '*.go'))
-    if not os.path.exists(genbin) or any(os.path.getmtime(f) > os.path.getmtime(genbin) for f in srcs):
+    injbin = os.path.join(VERIF, 'bin', 'inject')
+    srcs = glob.glob(os.path.join(VERIF, 'gen', '*.go')) + glob.glob(os.path.join(VERIF, 'sched', 'inject', '*.go'))
+    if not os.path.exists(genbin) or not os.path.exists(injbin) or any(os.path.getmtime(f) > min(os.path.getmtime(genbin), os.path.getmtime(injbin)) for f in srcs):
         rc, out = build_tools()
         if rc != 0:
             return False, out
